@@ -873,6 +873,22 @@ pub fn run_case(c: &Value, seed: u64, idx: u64) -> (String, Option<String>) {
                 }
                 (okerr(&r).into(), extra)
             },
+            "decode_raw" => {
+                // uniformly random bytes of the given length: a value or an error, and a value re-encodes to its input
+                let len = u("len");
+                let mut rng = ChaCha12Rng::seed_from_u64(seed ^ idx.wrapping_mul(0x9e3779b97f4a7c15) ^ 0xdec0de);
+                let mut bytes = vec![0u8; len];
+                rng.fill_bytes(&mut bytes);
+                if len > 0 && u("fbmode") == 1 {
+                    bytes[0] = 1 + (bytes[0] % 6);
+                }
+                let r = RangeProof::<P>::from_bytes(&bytes);
+                let extra = match &r {
+                    Ok(p) if p.to_bytes() != bytes => Some("decoded proof re-encodes to different bytes".to_string()),
+                    _ => None,
+                };
+                ("nopanic".into(), extra)
+            },
             _ => ("harness".into(), Some(format!("unknown op {}", op))),
         }
     }));
@@ -880,4 +896,129 @@ pub fn run_case(c: &Value, seed: u64, idx: u64) -> (String, Option<String>) {
         Ok(x) => x,
         Err(e) => ("panic".into(), Some(panic_msg(&e))),
     }
+}
+
+// ---------------------------------------------------------------------------------------------------
+// generators (C11, C12): execute the derivation script printed by TLC from MC_Generators.tla
+// ---------------------------------------------------------------------------------------------------
+fn script_bytes(v: &Value) -> Vec<u8> {
+    v.as_array().unwrap().iter().map(|x| x.as_u64().unwrap() as u8).collect()
+}
+
+/// the i-th .. blocks of SHAKE256(prefix || label)
+fn chain_from_script(prefix: &[u8], label: &[u8], count: usize) -> Vec<[u8; 64]> {
+    use sha3::{
+        digest::{ExtendableOutput, Update, XofReader},
+        Shake256,
+    };
+    let mut shake = Shake256::default();
+    shake.update(prefix);
+    shake.update(label);
+    let mut rd = shake.finalize_xof();
+    (0..count)
+        .map(|_| {
+            let mut b = [0u8; 64];
+            rd.read(&mut b);
+            b
+        })
+        .collect()
+}
+
+pub fn check_generators(script: &Value, n: usize, cap: usize, seed: u64, all_compressed: &mut std::collections::HashMap<[u8; 32], String>) -> Vec<String> {
+    use curve25519_dalek::traits::{Identity, VartimeMultiscalarMul, VartimePrecomputedMultiscalarMul};
+    use tari_bulletproofs_plus::traits::FromUniformBytes;
+    let mut bad = vec![];
+    let prefix = script_bytes(&script["prefix"]);
+    let params = match RangeParameters::<P>::init(n, cap, pedersen_std(1)) {
+        Ok(p) => p,
+        Err(e) => return vec![format!("RangeParameters::init({}, {}) failed: {}", n, cap, e)],
+    };
+    let label = |kind: &str, party: usize| -> Vec<u8> {
+        script["labels"].as_array().unwrap().iter().find(|l| l["kind"] == kind && l["party"].as_u64() == Some(party as u64)).map(|l| script_bytes(&l["bytes"])).expect("label in script")
+    };
+    let mut reference: Vec<P> = Vec::with_capacity(2 * n * cap); // interleaved G, H in aggregated (party-major) order
+    let mut ref_g = vec![];
+    let mut ref_h = vec![];
+    for party in 0..cap {
+        let g: Vec<P> = chain_from_script(&prefix, &label("G", party), n).iter().map(|b| P::from_uniform_bytes(b)).collect();
+        let h: Vec<P> = chain_from_script(&prefix, &label("H", party), n).iter().map(|b| P::from_uniform_bytes(b)).collect();
+        ref_g.extend(g);
+        ref_h.extend(h);
+    }
+    for x in 0..n * cap {
+        reference.push(ref_g[x].clone());
+        reference.push(ref_h[x].clone());
+    }
+    let lib_g: Vec<P> = params.gi_base_iter().cloned().collect();
+    let lib_h: Vec<P> = params.hi_base_iter().cloned().collect();
+    if lib_g.len() != n * cap || lib_h.len() != n * cap {
+        bad.push(format!("n={} cap={}: {} G and {} H generators instead of {}", n, cap, lib_g.len(), lib_h.len(), n * cap));
+    }
+    for x in 0..(n * cap).min(lib_g.len()).min(lib_h.len()) {
+        if lib_g[x] != ref_g[x] {
+            bad.push(format!("n={} cap={}: G generator (party {}, index {}) is not the documented derivation", n, cap, x / n, x % n));
+        }
+        if lib_h[x] != ref_h[x] {
+            bad.push(format!("n={} cap={}: H generator (party {}, index {}) is not the documented derivation", n, cap, x / n, x % n));
+        }
+        if bad.len() > 5 {
+            break;
+        }
+    }
+    // distinct and not the identity (as encodings), across everything seen in this run
+    let idc = *<C as Identity>::identity().as_fixed_bytes();
+    for (x, p) in lib_g.iter().enumerate().map(|(x, p)| (format!("G[{}][{}]", x / n, x % n), p)).chain(lib_h.iter().enumerate().map(|(x, p)| (format!("H[{}][{}]", x / n, x % n), p))) {
+        let c = *p.compress().as_fixed_bytes();
+        if c == idc {
+            bad.push(format!("n={} cap={}: generator {} is the identity", n, cap, x));
+        }
+        if let Some(prev) = all_compressed.get(&c) {
+            if *prev != x {
+                bad.push(format!("n={} cap={}: generator {} equals generator {}", n, cap, x, prev));
+            }
+        } else {
+            all_compressed.insert(c, x);
+        }
+    }
+    // the precomputed table represents exactly the interleaved generators: random static scalars through the table
+    // against a plain multiscalar multiplication over the reference points (3 vectors + unit vectors at both ends)
+    let mut rng = ChaCha12Rng::seed_from_u64(seed ^ ((n as u64) << 16) ^ cap as u64);
+    let len = 2 * n * cap;
+    let mut vectors: Vec<Vec<Scalar>> = (0..3)
+        .map(|_| {
+            (0..len)
+                .map(|_| {
+                    let mut w = [0u8; 64];
+                    rng.fill_bytes(&mut w);
+                    Scalar::from_bytes_mod_order_wide(&w)
+                })
+                .collect()
+        })
+        .collect();
+    for pos in [0usize, 1, len - 2, len - 1, (rng.next_u32() as usize) % len] {
+        let mut u = vec![Scalar::ZERO; len];
+        u[pos] = Scalar::ONE;
+        vectors.push(u);
+    }
+    for v in &vectors {
+        let r = catch_unwind(AssertUnwindSafe(|| params.precomp().vartime_mixed_multiscalar_mul(v.iter(), std::iter::empty::<Scalar>(), std::iter::empty::<P>())));
+        let e = P::vartime_multiscalar_mul(v.iter(), reference.iter());
+        match r {
+            Ok(p) if p == e => {},
+            Ok(_) => {
+                bad.push(format!("n={} cap={}: precomputed table does not represent the interleaved generators", n, cap));
+                break;
+            },
+            Err(e) => {
+                bad.push(format!("n={} cap={}: precomputed table has the wrong size ({})", n, cap, panic_msg(&e)));
+                break;
+            },
+        }
+    }
+    bad
+}
+
+pub fn gens_fingerprint(n: usize, cap: usize) -> Vec<[u8; 32]> {
+    let p = RangeParameters::<P>::init(n, cap, pedersen_std(2)).unwrap();
+    p.gi_base_iter().chain(p.hi_base_iter()).map(|x| *x.compress().as_fixed_bytes()).chain(p.g_bases_compressed().iter().map(|c| *c.as_fixed_bytes())).chain(std::iter::once(*p.h_base_compressed().as_fixed_bytes())).collect()
 }
